@@ -309,6 +309,23 @@ def ops_for(a, m):
         m2.ann["res_id"][0] = 42
         return a, m2
     ops.append(("annotation edit res_id[0] = 42", edit))
+    def replace_then_widen(a, m):
+        # a whole category is replaced by short values, then single entries get values of the documented width
+        # (chain ids of 4, atom names of 6, residue names of 5 characters): the list model keeps them in full
+        nn = m.n()
+        if nn == 0:
+            return a, None
+        a = a.copy()
+        m2 = m.copy()
+        for cat, short, wide in (("chain_id", "Q", "WXYZ"), ("atom_name", "X", "HD11AB"), ("res_name", "R", "LONGR"), ("element", "H", "ZN")):
+            a.set_annotation(cat, np.array([short] * nn)) if cat != "chain_id" else setattr(a, "chain_id", np.array([short] * nn))
+            a.get_annotation(cat)[nn - 1] = wide
+            m2.ann[cat] = [short] * (nn - 1) + [wide]
+        a.res_id = np.arange(nn, dtype=np.int8)          # narrower integers, then a value beyond int8
+        a.res_id[0] = 70000
+        m2.ann["res_id"] = [70000] + list(range(1, nn))
+        return a, m2
+    ops.append(("replace whole categories by short values, then write wide ones", replace_then_widen))
     def setel(a, m):
         a = a.copy()
         m2 = m.copy()
